@@ -5,7 +5,7 @@ Tolerances (u = 0.5*10^-round_value of the indicator itself, u4 = 0.5e-4 for its
 which hexital always builds with the default round_value=4):
   TR, Donchian, HL, HLA   u                      (one rounding of a directly computed value)
   ATR                     u4 + u*min(1+steps, p) (rounded TR input, Wilder contraction)
-  STDEV                   u + float slack of a running variance (see sd_float_slack)
+  STDEV                   u + float slack of a running variance (see _slack_series)
   BBANDS                  mid: u4*(1+steps) + u ; bands: that + 2*(u4 + slack)
   KC                      band: u4*(p+1)/2 + u ; lower/upper: that + mult*u4*(1+p)
   Supertrend              u + u4 + mult*u4*(1+p); comparison stops at the first candle whose close is
@@ -65,6 +65,9 @@ def _in_str(spec):
 
 
 def _slack_series(x, sd):
+    """float (not rounding) slack of a standard deviation obtained from a running variance: the
+    variance carries an absolute float error d ~ 64*eps*max|x|^2*(i+1), and
+    |sqrt(v+d) - sqrt(v)| <= min(sqrt(d), d/sqrt(v)).  Negligible unless the window is (nearly) constant."""
     out, m = [], 0.0
     for i in range(len(x)):
         if x[i] is not None:
